@@ -253,6 +253,20 @@ func classOf(o jop) string {
 	if len(o.A) == 1 {
 		return "single-add"
 	}
+	// two DISTINCT addresses of the batch agreeing on their first 8 bytes (or on all but the last byte)
+	for i, a := range o.A {
+		for _, b := range o.A[:i] {
+			if a != b && len(a) == len(b) && len(a) >= 4 {
+				k := 16 // hex digits
+				if len(a)-2 < k {
+					k = len(a) - 2
+				}
+				if a[:k] == b[:k] {
+					return "batch-add-with-close-addresses"
+				}
+			}
+		}
+	}
 	seen := map[string]bool{}
 	for _, a := range o.A {
 		if seen[a] {
@@ -528,6 +542,40 @@ type gen struct {
 	maxBins int
 	base    []byte
 	pool    [][]byte
+	fam     [][][]byte // families of DISTINCT addresses sharing a long common prefix
+}
+
+// family builds distinct addresses that agree with root on their first k
+// bytes (k = 1, 8, 16, len-1 ...): some differ only in the last bit or the
+// last byte, some from byte k on.
+func (g *gen) family(root []byte, k int) [][]byte {
+	n := len(root)
+	if k > n-1 {
+		k = n - 1
+	}
+	seen := map[string]bool{string(root): true}
+	out := [][]byte{append([]byte{}, root...)}
+	add := func(a []byte) {
+		if !seen[string(a)] {
+			seen[string(a)] = true
+			out = append(out, a)
+		}
+	}
+	a := append([]byte{}, root...)
+	a[n-1] ^= 0x01 // last bit
+	add(a)
+	a = append([]byte{}, root...)
+	a[n-1] ^= byte(1 + g.r.Intn(255)) // last byte
+	add(a)
+	for t := 0; t < 1+g.r.Intn(3); t++ {
+		a = append([]byte{}, root...)
+		a[k] ^= byte(1 + g.r.Intn(255)) // first byte after the shared prefix
+		if g.r.Bool() {
+			copy(a[k+1:], g.r.Bytes(n-k-1))
+		}
+		add(a)
+	}
+	return out
 }
 
 // address at proximity po from base (first differing bit = po), random tail
@@ -567,7 +615,61 @@ func newGen(r *hx.Rand, maxBins int, base []byte, npool int) *gen {
 		}
 		g.pool = append(g.pool, a)
 	}
+	// close neighbours: families sharing the first 1 / 8 / 16 / len-1 bytes
+	if len(base) >= 2 {
+		for f := 0; f < 2+r.Intn(2); f++ {
+			root := g.pool[r.Intn(len(g.pool))]
+			if len(root) != len(base) || f == 0 {
+				root = g.at(r.Intn(maxBins + 3)) // f == 0: anywhere, incl. beyond the last bin
+			}
+			if f == 1 {
+				root = append([]byte{}, base...) // neighbours of the base itself (deepest bin)
+			}
+			fam := g.family(root, r.Pick([]int{1, 8, 8, 16, 31, len(base) - 1}))
+			g.fam = append(g.fam, fam)
+			g.pool = append(g.pool, fam...)
+		}
+	}
 	return g
+}
+
+// famBatch: ONE batched Add holding several distinct members of a family,
+// mixed with a genuine duplicate, an already stored member and an unrelated address.
+func (g *gen) famBatch(ref map[string]bool) jop {
+	fam := g.fam[g.r.Intn(len(g.fam))]
+	var as []string
+	for _, i := range g.perm(len(fam)) {
+		if len(as) < 2 || g.r.Chance(2, 3) {
+			as = append(as, hx.Hex(fam[i]))
+		}
+	}
+	if g.r.Chance(1, 2) {
+		as = append(as, as[g.r.Intn(len(as))]) // genuine duplicate
+	}
+	if a, ok := g.present(ref); ok && g.r.Chance(1, 2) {
+		as = append(as, a) // already stored
+	}
+	if g.r.Chance(1, 3) {
+		as = append(as, g.pick())
+	}
+	p := g.perm(len(as))
+	out := make([]string, len(as))
+	for i, j := range p {
+		out[i] = as[j]
+	}
+	return jop{K: "add", A: out}
+}
+
+func (g *gen) perm(n int) []int {
+	p := make([]int, n)
+	for i := range p {
+		p[i] = i
+	}
+	for i := n - 1; i > 0; i-- {
+		j := g.r.Intn(i + 1)
+		p[i], p[j] = p[j], p[i]
+	}
+	return p
 }
 
 func (g *gen) pick() string { return hx.Hex(g.pool[g.r.Intn(len(g.pool))]) }
@@ -585,6 +687,9 @@ func (g *gen) present(ref map[string]bool) (string, bool) {
 }
 
 func (g *gen) uop(ref map[string]bool) jop {
+	if len(g.fam) > 0 && g.r.Chance(1, 5) {
+		return g.famBatch(ref)
+	}
 	switch x := g.r.Intn(10); {
 	case x < 3:
 		return jop{K: "add", A: []string{g.pick()}}
@@ -697,8 +802,39 @@ func corpus() []jcase {
 		{MaxBins: 1, Base: b4, Ops: []jop{{K: "add", A: []string{a0, a9, ""}}, {K: "length"}, {K: "shallowest"}, {K: "each", Rev: true}}},
 		{MaxBins: 32, Base: b4, Ops: []jop{{K: "add", A: []string{"", "a5", b4, "a5a5a5a4", "a5a5a5a5ff"}}, {K: "binpeers", B: 31}, {K: "binpeers", B: 8}, {K: "each"}}},
 		{MaxBins: 33, Base: b4, Ops: []jop{{K: "add", A: []string{b4, a0}}, {K: "shallowest"}, {K: "binsize", B: 32}, {K: "binsize", B: 31}}},
+		// seeded/C21-2: ONE batched Add of distinct 32-byte addresses that agree on their first 31 / 16 / 8 / 1 bytes
+		// (last bit, last byte, byte 16, byte 8, byte 1 differ), with a genuine duplicate and a stored member
+		{MaxBins: 32, Base: b32, Ops: []jop{
+			{K: "add", A: []string{n32(31, 0x01)}},
+			{K: "add", A: []string{n32(31, 0x01), n32(31, 0x00), n32(31, 0x80), n32(16, 0xff), n32(8, 0xff), n32(31, 0x00), n32(1, 0xff), n32(0, 0x80)}},
+			{K: "length"}, {K: "exists", A: []string{n32(31, 0x80)}}, {K: "exists", A: []string{n32(16, 0xff)}}, {K: "exists", A: []string{n32(8, 0xff)}},
+			{K: "binsize", B: 0}, {K: "binsize", B: 8}, {K: "each"}, {K: "each", Rev: true},
+			{K: "remove", A: []string{n32(31, 0x80)}}, {K: "add", A: []string{n32(31, 0x80), n32(31, 0x40)}}, {K: "length"}}},
+		// the same with 16-byte addresses in 4 bins, and 9-byte ones (first 8 bytes equal)
+		{MaxBins: 4, Base: b32[:32], Ops: []jop{
+			{K: "add", A: []string{"25" + z(14) + "01", "25" + z(14) + "02", "25" + z(7) + "01" + z(7), "25" + z(14) + "01", "e5" + z(15)}},
+			{K: "length"}, {K: "binpeers", B: 0}, {K: "each"}}},
+		{MaxBins: 4, Base: b32[:18], Ops: []jop{
+			{K: "add", A: []string{"25" + z(7) + "01", "25" + z(7) + "02", "25" + z(7) + "03"}},
+			{K: "length"}, {K: "binpeers", B: 0}, {K: "exists", A: []string{"25" + z(7) + "03"}}}},
 	}
 }
+
+// 32-byte corpus addresses: b32 with byte i xor-ed with v
+const b32 = "a5a5a5a5a5a5a5a5a5a5a5a5a5a5a5a5a5a5a5a5a5a5a5a5a5a5a5a5a5a5a5a5"
+
+func n32(i int, v byte) string {
+	b := unhex(b32)
+	b[0] ^= 0x80 // bin 0, so that the family is not capped into the last bin only
+	if i == 0 {
+		b[0] ^= 0x80 ^ v // an unrelated bin
+	} else {
+		b[i] ^= v
+	}
+	return hx.Hex(b)
+}
+
+func z(n int) string { return strings.Repeat("00", n) }
 
 // ---------------------------------------------------------------- concurrent soak
 
@@ -834,7 +970,7 @@ func main() {
 	r := run.R
 	for h := 0; h < run.N(260, 2500); h++ {
 		maxBins := r.Pick([]int{1, 2, 3, 4, 4, 4, 4, 5, 8, 16, 32, 33})
-		blen := r.Pick([]int{4, 4, 4, 5, 8, 32})
+		blen := r.Pick([]int{4, 4, 4, 5, 8, 9, 16, 32})
 		base := r.Bytes(blen)
 		g := newGen(r.Fork(uint64(h)), maxBins, base, 6+r.Intn(9))
 		e := newExec(run, maxBins, base)
@@ -843,6 +979,26 @@ func main() {
 			e.do(g.op(e.ref))
 		}
 		e.finish("random")
+	}
+	// histories dominated by batched Adds of close neighbours (long common prefixes)
+	for h := 0; h < run.N(40, 400); h++ {
+		maxBins := r.Pick([]int{4, 4, 8, 32})
+		base := r.Bytes(r.Pick([]int{9, 12, 16, 32, 32}))
+		g := newGen(r.Fork(uint64(h)+1000003), maxBins, base, 3+r.Intn(4))
+		e := newExec(run, maxBins, base)
+		for i := 0; i < 6+r.Intn(8); i++ {
+			switch r.Intn(6) {
+			case 0, 1, 2:
+				e.do(g.famBatch(e.ref))
+			case 3:
+				e.do(g.uop(e.ref))
+			case 4:
+				e.do(jop{K: "each", Rev: r.Bool()})
+			default:
+				e.do(jop{K: "length"})
+			}
+		}
+		e.finish("close-addresses")
 	}
 
 	soak(run, run.Seed, time.Duration(run.N(2, 20))*time.Second)
